@@ -50,6 +50,7 @@ type hist struct {
 	Procs   int
 	File    *pipesup.File
 	Mode    int
+	CtxKind int   // mode 1: 0 = another goroutine calls cancel, 1 = the context's deadline expires (timer goroutine)
 	Plan    []int // planned call codes (cCancel3 in the plan = trigger point for the other goroutine)
 	Filter  int   // 0 none, 1 reject all nodes (every block empty), 2 reject odd blocks
 	Calls   []call
@@ -62,6 +63,12 @@ type hist struct {
 func run(h *hist, seed int64) {
 	f := h.File
 	ctx, cancel := context.WithCancel(context.Background())
+	if h.Mode == 1 && h.CtxKind == 1 {
+		cancel()
+		d := time.Duration(200+rand.New(rand.NewSource(seed)).Intn(2800)) * time.Microsecond
+		ctx, cancel = context.WithTimeout(context.Background(), d)
+		h.Calls = append(h.Calls, call{6, 0, 0}) // the deadline may expire at any moment from now on
+	}
 	defer cancel()
 	rd := pipesup.NewReader(f)
 	var sc *osmpbf.Scanner
@@ -88,6 +95,9 @@ func run(h *hist, seed int64) {
 	var wg sync.WaitGroup
 	markerDone := false
 	for _, c := range h.Plan {
+		if h.Mode == 1 && h.CtxKind == 1 && ctx.Err() != nil {
+			atomic.StoreInt32(&cancelDone, 1)
+		}
 		if h.Mode == 1 && !markerDone && atomic.LoadInt32(&cancelDone) == 1 {
 			h.Calls = append(h.Calls, call{cCancel3, 0, 0})
 			markerDone = true
@@ -116,6 +126,10 @@ func run(h *hist, seed int64) {
 			cancel()
 			h.Calls = append(h.Calls, call{cCancel, 0, 0})
 		case cCancel3:
+			if h.CtxKind == 1 {
+				<-ctx.Done() // the deadline (at most 3 ms after New)
+				continue
+			}
 			h.Calls = append(h.Calls, call{6, 0, 0})
 			wg.Add(1)
 			d := time.Duration(rand.New(rand.NewSource(seed)).Intn(60)) * time.Microsecond
@@ -215,7 +229,7 @@ func pbfCase(h *hist) *wire.Case {
 		n = 1
 	}
 	c := &wire.Case{Class: fmt.Sprintf("pbf-mode%d", h.Mode)}
-	c.Int(1).Int(int64(n)).Bool(!h.File.Header)
+	c.Int(1).Int(int64(n)).Bool(!h.File.Header).Int(h.File.StartErr())
 	itemsToks(c, h.File)
 	c.Int(int64(h.Mode)).Int(int64(h.Filter))
 	c.Len(len(h.Calls))
@@ -224,7 +238,7 @@ func pbfCase(h *hist) *wire.Case {
 	}
 	c.Int(h.Rac).Int(h.HdrLate).Int(int64(h.Leaked))
 	c.Desc = map[string]interface{}{"procs": h.Procs, "header": h.File.Header, "items": h.File.Items, "trunc": h.File.Trunc,
-		"mode": h.Mode, "filter": h.Filter, "plan": h.Plan, "calls(code,a,b)": h.Calls,
+		"mode": h.Mode, "ctx_kind": h.CtxKind, "start_fail": h.File.StartFail, "filter": h.Filter, "plan": h.Plan, "calls(code,a,b)": h.Calls,
 		"reads_started_after_cancel": h.Rac, "header_read_after_cancel": h.HdrLate, "goroutines_left": h.Leaked,
 		"bytes_pulled": h.Pulled, "file_bytes": len(h.File.Bytes), "expected_ids": h.File.Expected()}
 	return c
@@ -394,6 +408,77 @@ func xmlCancelCase(rng *rand.Rand) *wire.Case {
 	return c
 }
 
+// ---- live stream that stops delivering: the reader blocks in Read at the start of block `stall`;
+// Scan then blocks in Next; the context is cancelled from another goroutine (kind 0) or its deadline
+// expires (kind 1).  Scan has to return false promptly with the context's error although the reader
+// goroutine is stuck in Read; after the stream is released everything terminates.
+func stalledCase(rng *rand.Rand, seed int64) *wire.Case {
+	procs := 1 + rng.Intn(12)
+	f := pipesup.GenFile(rng, 3*procs+2, false)
+	stall := 1 + rng.Intn(len(f.Items)-1)
+	kind := rng.Intn(2)
+	d := time.Duration(300+rng.Intn(3000)) * time.Microsecond
+	var ctx context.Context
+	var cancel func()
+	if kind == 1 {
+		ctx, cancel = context.WithTimeout(context.Background(), d)
+	} else {
+		ctx, cancel = context.WithCancel(context.Background())
+	}
+	defer cancel()
+	rd := pipesup.NewReader(f)
+	idx := stall
+	if f.Header {
+		idx++
+	}
+	rd.StallAt = f.Starts[idx]
+	rd.Release = make(chan struct{})
+	sc := osmpbf.New(ctx, rd, procs)
+	type res struct {
+		ids []int64
+		err int64
+	}
+	ch := make(chan res, 1)
+	go func() {
+		var r res
+		for sc.Scan() {
+			r.ids = append(r.ids, pipesup.ObjID(sc.Object()))
+		}
+		r.err = pipesup.ErrCode(sc.Err())
+		ch <- r
+	}()
+	if kind == 0 {
+		go func() { time.Sleep(d); cancel() }()
+	}
+	var r res
+	hung := false
+	select {
+	case r = <-ch:
+	case <-time.After(5 * time.Second):
+		hung = true
+	}
+	close(rd.Release)
+	if hung {
+		select {
+		case r = <-ch:
+		case <-time.After(5 * time.Second):
+		}
+	}
+	sc.Close()
+	leaked := pipesup.WaitNoPipeline(3 * time.Second)
+	c := &wire.Case{Class: "stalled"}
+	c.Int(4).Int(int64(procs)).Bool(!f.Header)
+	itemsToks(c, f)
+	c.Int(int64(stall)).Int(int64(kind)).Ints(r.ids).Int(r.err).Bool(hung).Int(int64(leaked))
+	if hung {
+		c.OracleFail = "Scan was still blocked 5 s after the context was cancelled while the reader is stalled in Read"
+	}
+	c.Desc = map[string]interface{}{"procs": procs, "header": f.Header, "items": f.Items, "reader_blocks_in_Read_at_block": stall,
+		"context": []string{"cancelled from another goroutine", "deadline expires"}[kind], "after": d.String(),
+		"delivered": r.ids, "err": r.err, "scan_still_blocked_5s_after_cancel": hung, "goroutines_left_after_release_and_close": leaked, "expected": f.Expected()}
+	return c
+}
+
 func corrupt(c *wire.Case, kind int) *wire.Case {
 	d := c.Clone()
 	d.Canary = 1
@@ -453,7 +538,18 @@ func main() {
 		if rng.Intn(4) == 0 {
 			h.Filter = 1 + rng.Intn(2)
 		}
+		if mode == 1 && rng.Intn(3) == 0 {
+			h.CtxKind = 1
+		}
 		total := len(f.Expected())
+		if mode == 0 && rng.Intn(8) == 0 { // decoder.Start fails on the first file block
+			f.Header = true
+			f.StartFail = 1 + rng.Intn(4)
+			f.Trunc = 0
+			f.Build()
+			total = 0
+			w.Count(fmt.Sprintf("start_fail:%d", f.StartFail))
+		}
 		h.Plan = genPlan(rng, total, mode)
 		hung := false
 		{
@@ -461,14 +557,15 @@ func main() {
 			go func() { run(h, a.Seed*7919+int64(i)); close(done) }()
 			select {
 			case <-done:
-			case <-time.After(20 * time.Second):
+			case <-time.After(8 * time.Second):
 				hung = true
 			}
 		}
 		if hung {
 			// a call (Scan or Close) did not return: report it as an observation, then stop
-			hc := &wire.Case{Class: "hung", OracleFail: "a Scan/Close call did not return within 20 s (goroutines do not terminate)",
-				Desc: map[string]interface{}{"procs": h.Procs, "header": h.File.Header, "items": h.File.Items, "plan": h.Plan, "mode": h.Mode, "filter": h.Filter}}
+			hc := &wire.Case{Class: "hung", OracleFail: "a Scan/Header/Close call did not return within 8 s (a goroutine or the WaitGroup never finishes)",
+				Desc: map[string]interface{}{"procs": h.Procs, "header": h.File.Header, "start_fail": h.File.StartFail, "items": h.File.Items, "plan": h.Plan, "mode": h.Mode, "filter": h.Filter,
+					"plan_codes": "0 Scan 1 Header 2 Err 3 Close 4 cancel 5 cancel-from-another-goroutine"}}
 			hc.Int(9)
 			w.Add(hc)
 			break
@@ -491,6 +588,17 @@ func main() {
 		w.Add(c)
 		if firstXml == nil {
 			firstXml = c
+		}
+	}
+	nSt := int(40 * a.Scale)
+	if a.Tier == "thorough" {
+		nSt *= 10
+	}
+	for i := 0; i < nSt; i++ {
+		c := stalledCase(rng, a.Seed*13+int64(i))
+		w.Add(c)
+		if c.OracleFail != "" {
+			break
 		}
 	}
 	nXc := int(30 * a.Scale)
